@@ -594,13 +594,19 @@ def key_to_ascending_key(key: GetItemKeyType, size: int) -> GetItemKeyType:
 
     if key.__class__ is np.ndarray:
         # array first as not truthy
+        if key.dtype.kind == 'b': #type: ignore
+            # a Boolean selection is positional and already ascending; sorting it would select other positions
+            return key
+        if key.dtype.kind == 'i': #type: ignore
+            # negative positions must order by the position they name
+            key = np.where(key < 0, key + size, key) #type: ignore
         return np.sort(key, kind=DEFAULT_SORT_KIND)
 
     if not len(key): #type: ignore
         return key
 
     if isinstance(key, list):
-        return sorted(key)
+        return sorted(k + size if k < 0 else k for k in key)
 
     if isinstance(key, Series):
         return key.sort_index()
